@@ -212,7 +212,7 @@ def load_known(prop):
 def finish(ctx, seed):
     for r in ctx.rules:
         r.finish()
-    ev_dir = os.path.join(VERIF, "evidence")
+    ev_dir = os.environ.get("PGCAT_EVIDENCE_DIR") or os.path.join(VERIF, "evidence")
     os.makedirs(os.path.join(ev_dir, "replay"), exist_ok=True)
     # old replay files of this property
     for f in os.listdir(os.path.join(ev_dir, "replay")):
